@@ -12,6 +12,7 @@ package main
 
 import (
 	"fmt"
+	"math"
 	"math/rand"
 	"os"
 	"path/filepath"
@@ -26,6 +27,7 @@ import (
 	ctypes "github.com/elastos/Elastos.ELA/core/types/common"
 	"github.com/elastos/Elastos.ELA/core/types/functions"
 	"github.com/elastos/Elastos.ELA/core/types/interfaces"
+	"github.com/elastos/Elastos.ELA/core/types/outputpayload"
 	"github.com/elastos/Elastos.ELA/core/types/payload"
 	"github.com/elastos/Elastos.ELA/database"
 	"github.com/elastos/Elastos.ELA/dpos/state"
@@ -107,6 +109,43 @@ func setupV2() {
 	st.ProcessBlock(&types.Block{Header: ctypes.Header{Height: 50}, Transactions: txs}, nil, 0)
 	for h := uint32(51); h < 60; h++ {
 		st.ProcessBlock(&types.Block{Header: ctypes.Header{Height: h}}, nil, 0)
+	}
+	// every producer receives the same four DPoS v2 votes with non-round lock weights, so their
+	// vote rights are equal as exact numbers and the order falls to the key tie-break; a sum
+	// that depends on map iteration order would make them differ in the last bits
+	stakeCode := append(append([]byte{33}, pk(7)...), 0xac)
+	type vt struct {
+		votes common.Fixed64
+		lock  uint32
+	}
+	h := uint32(60)
+	for _, v := range []vt{{700000000000, 8200}, {700123456789, 9311}, {700246913578, 10422}, {700370370367, 11533}, {700493827156, 12644}, {700617283945, 13755}, {700740740734, 14866}} {
+		var infos []payload.VotesWithLockTime
+		for i := byte(1); i <= 6; i++ {
+			infos = append(infos, payload.VotesWithLockTime{Candidate: pk(i), Votes: v.votes, LockTime: h + v.lock})
+		}
+		tx := functions.CreateTransaction(ctypes.TxVersion09, ctypes.Voting, payload.VoteVersion,
+			&payload.Voting{Contents: []payload.VotesContent{{VoteType: outputpayload.DposV2, VotesInfo: infos}}},
+			[]*ctypes.Attribute{}, []*ctypes.Input{}, []*ctypes.Output{}, h, []*program.Program{{Code: stakeCode, Parameter: []byte{1}}})
+		st.ProcessBlock(&types.Block{Header: ctypes.Header{Height: h}, Transactions: []interfaces.Transaction{tx}}, nil, 0)
+		h++
+	}
+	for _, pr := range st.GetDposV2ActiveProducers() {
+		if len(pr.GetAllDetailedDPoSV2Votes()) == 0 {
+			evid.Fatalf("harness: v2 votes were not attached to the producers")
+		}
+	}
+	if os.Getenv("VERIF_C24_DEBUG") != "" {
+		for k := 0; k < 5; k++ {
+			for _, pr := range st.GetDposV2ActiveProducers() {
+				n := 0
+				for _, m := range pr.GetAllDetailedDPoSV2Votes() {
+					n += len(m)
+				}
+				fmt.Printf("%x %x n=%d  ", pr.NodePublicKey()[:2], math.Float64bits(pr.GetTotalDPoSV2VoteRights()), n)
+			}
+			fmt.Println()
+		}
 	}
 	if n := len(st.GetDposV2ActiveProducers()); n != 6 {
 		evid.Fatalf("harness: expected 6 active DPoS v2 producers, have %d", n)
